@@ -18,6 +18,8 @@ import ChibiVerif.Spec.LinkageSpec
 namespace ChibiVerif.Linkage
 open ChibiVerif.Spec.Linkage (initFnRefs bodyFnRefs)
 
+variable [Rules]
+
 /-! ### `updFirst` on explicit lists -/
 
 theorem updFirst_skip {p : Obj → Bool} {u : Obj → Obj} : ∀ {l1 : List Obj} (l2 : List Obj),
@@ -110,17 +112,17 @@ theorem fnEffect_cons (cur : Option Name) (gs : List Obj) (g : Name) (l : List N
 /-! ### string literals and initializers -/
 
 /-- the object `new_string_literal` / the `__func__` arrays push -/
-def strObj (k n : Nat) : Obj := { sym := .anon k, ty := strTy n, hasInit := true }
+def strObj (cur : Option Name) (k n : Nat) : Obj := { sym := .anon k, ty := strTy n, hasInit := true, owner := ownerOf cur }
 
 def symOfRef : Ref → Sym
   | .fn g => .named g
   | .obj x => .named x
 
 /-- the objects an initializer pushes (newest first) when the label counter is `k` -/
-def initNews : Nat → List InitItem → List Obj
+def initNews (cur : Option Name) : Nat → List InitItem → List Obj
   | _, [] => []
-  | k, .ref _ :: r => initNews k r
-  | k, .str n :: r => initNews (k + 1) r ++ [strObj k n]
+  | k, .ref _ :: r => initNews cur k r
+  | k, .str n :: r => initNews cur (k + 1) r ++ [strObj cur k n]
 
 def initCount : List InitItem → Nat
   | [] => 0
@@ -180,7 +182,7 @@ theorem fnEffect_append (cur : Option Name) (gs : List Obj) (a b : List Name) :
 
 theorem initItems_exact {cur : Option Name} : ∀ (items : List InitItem) {st st' : PState} {ss : List Sym},
     initItems cur st items = .ok (st', ss) →
-      st'.globals = initNews st.nextAnon items ++ fnEffect cur st.globals (initFnRefs items) ∧
+      st'.globals = initNews cur st.nextAnon items ++ fnEffect cur st.globals (initFnRefs items) ∧
       st'.nextAnon = st.nextAnon + initCount items ∧ ss = initLabels st.nextAnon items := by
   intro items
   induction items with
@@ -213,18 +215,18 @@ theorem initItems_exact {cur : Option Name} : ∀ (items : List InitItem) {st st
       · cases h
       · rename_i p2 h2
         simp only [pure, Except.pure, Except.ok.injEq, Prod.mk.injEq] at h
-        obtain ⟨g2, n2, l2⟩ := ih (st := (newAnon st (strTy n) true).1) (st' := p2.1) (ss := p2.2) (by simpa using h2)
+        obtain ⟨g2, n2, l2⟩ := ih (st := (newAnon cur st (strTy n) true).1) (st' := p2.1) (ss := p2.2) (by simpa using h2)
         rw [← h.1, ← h.2, g2, n2, l2]
         refine ⟨?_, ?_, rfl⟩
-        · show initNews (st.nextAnon + 1) rest ++ fnEffect cur (strObj st.nextAnon n :: st.globals) (initFnRefs rest) = _
+        · show initNews cur (st.nextAnon + 1) rest ++ fnEffect cur (strObj cur st.nextAnon n :: st.globals) (initFnRefs rest) = _
           rw [fnEffect_cons_data rfl]
           simp [initNews, initFnRefs]
         · show st.nextAnon + 1 + initCount rest = st.nextAnon + (initCount rest + 1)
           omega
 
 /-- every object an initializer pushes is a datum with a fresh label -/
-theorem initNews_spec : ∀ (items : List InitItem) (k : Nat) (o : Obj), o ∈ initNews k items →
-    o.isFunction = false ∧ ∃ j n, k ≤ j ∧ o = strObj j n
+theorem initNews_spec {cur : Option Name} : ∀ (items : List InitItem) (k : Nat) (o : Obj), o ∈ initNews cur k items →
+    o.isFunction = false ∧ ∃ j n, k ≤ j ∧ o = strObj cur j n
   | [], _, _, h => by simp [initNews] at h
   | .ref _ :: r, k, o, h => initNews_spec r k o h
   | .str n :: r, k, o, h => by
@@ -235,23 +237,105 @@ theorem initNews_spec : ∀ (items : List InitItem) (k : Nat) (o : Obj), o ∈ i
     · subst h
       exact ⟨rfl, k, n, Nat.le_refl _, rfl⟩
 
+/-! ### the static-ness of the visible prior declaration (`prevStatic`) on explicit lists -/
+
+/-- the environment `global_variable` (repaired) reads: for each identifier, `is_static` of the object `find_var` finds -/
+abbrev SEnv := Name → Bool
+
+def envSet (env : SEnv) (x : Name) (b : Bool) : SEnv := fun y => if y = x then b else env y
+
+theorem findObj_cons_anon {o : Obj} {k : Nat} (h : o.sym = .anon k) (gs : List Obj) (x : Name) :
+    findObj (o :: gs) x = findObj gs x := by
+  have : (Sym.anon k == Sym.named x) = false := by simp
+  simp [findObj, List.find?, h, this]
+
+theorem findObj_cons_fn {o : Obj} (h : o.isFunction = true) (gs : List Obj) (x : Name) :
+    findObj (o :: gs) x = findObj gs x := by
+  simp [findObj, List.find?, h]
+
+theorem findObj_append_anon {l : List Obj} (h : ∀ o, o ∈ l → ∃ k, o.sym = .anon k) (gs : List Obj) (x : Name) :
+    findObj (l ++ gs) x = findObj gs x := by
+  induction l with
+  | nil => rfl
+  | cons a as ih =>
+    obtain ⟨k, hk⟩ := h a List.mem_cons_self
+    rw [List.cons_append, findObj_cons_anon hk, ih (fun o ho => h o (List.mem_cons_of_mem _ ho))]
+
+theorem findObj_updFunc {u : Obj → Obj} (hu : KeepsId u) : ∀ (gs : List Obj) (f x : Name),
+    findObj (updFunc gs f u) x = findObj gs x
+  | [], _, _ => rfl
+  | a :: as, f, x => by
+    unfold updFunc
+    cases hp : (a.isFunction && a.sym == Sym.named f)
+    · rw [updFirst_miss _ hp]
+      have ih := findObj_updFunc hu as f x
+      unfold updFunc at ih
+      simp only [findObj, List.find?] at ih ⊢
+      rw [ih]
+    · rw [updFirst_hit _ hp]
+      simp only [Bool.and_eq_true] at hp
+      rw [findObj_cons_fn (by rw [(hu a).1]; exact hp.1), findObj_cons_fn hp.1]
+
+theorem prevStatic_congr {gs gs' : List Obj} (h : ∀ x, findObj gs x = findObj gs' x) : prevStatic gs = prevStatic gs' := by
+  funext x; simp [prevStatic, h x]
+
+theorem prevStatic_updFunc {u : Obj → Obj} (hu : KeepsId u) (gs : List Obj) (f : Name) :
+    prevStatic (updFunc gs f u) = prevStatic gs :=
+  prevStatic_congr (fun x => findObj_updFunc hu gs f x)
+
+theorem prevStatic_append_anon {l : List Obj} (h : ∀ o, o ∈ l → ∃ k, o.sym = .anon k) (gs : List Obj) :
+    prevStatic (l ++ gs) = prevStatic gs :=
+  prevStatic_congr (fun x => findObj_append_anon h gs x)
+
+theorem prevStatic_cons_named {o : Obj} {x : Name} (hf : o.isFunction = false) (hs : o.sym = .named x) (gs : List Obj) :
+    prevStatic (o :: gs) = envSet (prevStatic gs) x o.isStatic := by
+  funext y
+  by_cases hy : y = x
+  · subst hy
+    simp [prevStatic, findObj, List.find?, hf, hs, envSet]
+  · have : (Sym.named x == Sym.named y) = false := by
+      simp only [beq_eq_false_iff_ne, ne_eq, Sym.named.injEq]; exact fun e => hy e.symm
+    simp [prevStatic, findObj, List.find?, hf, hs, envSet, hy, this]
+
+theorem prevStatic_fnEffect (cur : Option Name) (gs : List Obj) (l : List Name) : prevStatic (fnEffect cur gs l) = prevStatic gs := by
+  cases cur with
+  | some f => exact prevStatic_updFunc (u := addRefsO l) (fun _ => ⟨rfl, rfl⟩) gs f
+  | none =>
+    simp only [fnEffect]
+    induction l generalizing gs with
+    | nil => rfl
+    | cons g rest ih => simp only [List.foldl_cons]; rw [ih, prevStatic_updFunc (u := setRootO) (fun _ => ⟨rfl, rfl⟩)]
+
+theorem initNews_anon {cur : Option Name} (items : List InitItem) (k : Nat) : ∀ o, o ∈ initNews cur k items → ∃ j, o.sym = .anon j := by
+  intro o ho
+  obtain ⟨_, j, n, _, rfl⟩ := initNews_spec items k o ho
+  exact ⟨j, rfl⟩
+
 /-! ### function bodies -/
 
-/-- the object `declaration` makes of `static [_Thread_local] T v [= init];` when the label counter is `k` -/
-def slObj (k : Nat) (tls : Bool) (ty : ObjTy) (init : Option (List InitItem)) : Obj :=
+/-- the object `declaration` makes of `static [_Thread_local] T v [= init];` in the body of `f` when the label counter is `k` -/
+def slObj (f : Name) (k : Nat) (tls : Bool) (ty : ObjTy) (init : Option (List InitItem)) : Obj :=
   { sym := .anon k, ty := ty, hasInit := init.isSome, isTls := tls,
-    uses := match init with | none => [] | some items => initLabels (k + 1) items }
+    uses := (match init with | none => [] | some items => initLabels (k + 1) items), owner := ownerOf (some f) }
 
-/-- the object of a block-scope `extern` declaration -/
-def externO (x : Name) (tls : Bool) (ty : ObjTy) : Obj :=
-  { sym := .named x, isDefinition := false, isStatic := false, isTls := tls, ty := ty }
+/-- the object of a block-scope `extern` declaration; `stc` = what it inherits from the visible prior declaration -/
+def externO (x : Name) (tls : Bool) (ty : ObjTy) (stc : Bool) : Obj :=
+  { sym := .named x, isDefinition := false, isStatic := stc, isTls := tls, ty := ty }
 
-def bodyItemNews (k : Nat) : BodyItem → List Obj
+/-- `is_static` of a block-scope `extern` declaration of `x` -/
+def extStatic (env : SEnv) (x : Name) : Bool := Rules.externInherits && env x
+
+def bodyItemNews (f : Name) (env : SEnv) (k : Nat) : BodyItem → List Obj
   | .ref _ => []
-  | .staticLocal tls ty none => [slObj k tls ty none]
-  | .staticLocal tls ty (some items) => initNews (k + 1) items ++ [slObj k tls ty (some items)]
-  | .str n => [strObj k n]
-  | .externObj x tls ty => [externO x tls ty]
+  | .staticLocal tls ty none => [slObj f k tls ty none]
+  | .staticLocal tls ty (some items) => initNews (some f) (k + 1) items ++ [slObj f k tls ty (some items)]
+  | .str n => [strObj (some f) k n]
+  | .externObj x tls ty => [externO x tls ty (extStatic env x)]
+
+/-- what a body item does to the environment of visible declarations -/
+def envItem (env : SEnv) : BodyItem → SEnv
+  | .externObj x _ _ => envSet env x (extStatic env x)
+  | _ => env
 
 def bodyItemCount : BodyItem → Nat
   | .ref _ => 0
@@ -266,14 +350,15 @@ def bodyItemLabels (k : Nat) : BodyItem → List Sym
   | .str _ => [.anon k]
   | .externObj _ _ _ => []
 
-theorem strObj_sym_ne {j n k : Nat} (h : k < j) : ((strObj j n).sym == Sym.anon k && !(strObj j n).isFunction) = false := by
+theorem strObj_sym_ne {cur : Option Name} {j n k : Nat} (h : k < j) :
+    ((strObj cur j n).sym == Sym.anon k && !(strObj cur j n).isFunction) = false := by
   have : (Sym.anon j == Sym.anon k) = false := by
     simp only [beq_eq_false_iff_ne, ne_eq, Sym.anon.injEq]; omega
   simp [strObj, this]
 
 theorem bodyItem_exact {f : Name} {st st' : PState} {b : BodyItem} {us : List Sym}
     (h : bodyItem f st b = .ok (st', us)) :
-    st'.globals = bodyItemNews st.nextAnon b ++ updFunc st.globals f (addRefsO (bodyFnRefs [b])) ∧
+    st'.globals = bodyItemNews f (prevStatic st.globals) st.nextAnon b ++ updFunc st.globals f (addRefsO (bodyFnRefs [b])) ∧
     st'.nextAnon = st.nextAnon + bodyItemCount b ∧ us = bodyItemLabels st.nextAnon b := by
   cases b with
   | ref r =>
@@ -341,19 +426,7 @@ theorem bodyItem_exact {f : Name} {st st' : PState} {b : BodyItem} {us : List Sy
     rw [this]
     rfl
 
-def bodyNews : Nat → List BodyItem → List Obj
-  | _, [] => []
-  | k, b :: rest => bodyNews (k + bodyItemCount b) rest ++ bodyItemNews k b
-
-def bodyCount : List BodyItem → Nat
-  | [] => 0
-  | b :: rest => bodyItemCount b + bodyCount rest
-
-def bodyLabels : Nat → List BodyItem → List Sym
-  | _, [] => []
-  | k, b :: rest => bodyItemLabels k b ++ bodyLabels (k + bodyItemCount b) rest
-
-theorem bodyItemNews_data (k : Nat) (b : BodyItem) : ∀ o, o ∈ bodyItemNews k b → o.isFunction = false := by
+theorem bodyItemNews_data (f : Name) (env : SEnv) (k : Nat) (b : BodyItem) : ∀ o, o ∈ bodyItemNews f env k b → o.isFunction = false := by
   intro o ho
   cases b with
   | ref r => simp [bodyItemNews] at ho
@@ -368,17 +441,55 @@ theorem bodyItemNews_data (k : Nat) (b : BodyItem) : ∀ o, o ∈ bodyItemNews k
   | str n => simp only [bodyItemNews, List.mem_singleton] at ho; subst ho; rfl
   | externObj x tls ty => simp only [bodyItemNews, List.mem_singleton] at ho; subst ho; rfl
 
+/-- the environment after one body item -/
+theorem prevStatic_bodyItemNews (f : Name) (gs : List Obj) (k : Nat) (b : BodyItem) :
+    prevStatic (bodyItemNews f (prevStatic gs) k b ++ gs) = envItem (prevStatic gs) b := by
+  cases b with
+  | ref r => rfl
+  | staticLocal tls ty init =>
+    cases init with
+    | none => exact prevStatic_append_anon (fun o ho => by
+        simp only [bodyItemNews, List.mem_singleton] at ho; subst ho; exact ⟨k, rfl⟩) gs
+    | some items => exact prevStatic_append_anon (fun o ho => by
+        simp only [bodyItemNews, List.mem_append, List.mem_singleton] at ho
+        rcases ho with ho | ho
+        · exact initNews_anon items _ o ho
+        · subst ho; exact ⟨k, rfl⟩) gs
+  | str n => exact prevStatic_append_anon (fun o ho => by
+      simp only [bodyItemNews, List.mem_singleton] at ho; subst ho; exact ⟨k, rfl⟩) gs
+  | externObj x tls ty =>
+    show prevStatic (externO x tls ty (extStatic (prevStatic gs) x) :: gs) = _
+    rw [prevStatic_cons_named rfl rfl]
+    rfl
+
+def bodyNews (f : Name) : SEnv → Nat → List BodyItem → List Obj
+  | _, _, [] => []
+  | env, k, b :: rest => bodyNews f (envItem env b) (k + bodyItemCount b) rest ++ bodyItemNews f env k b
+
+def envBody : SEnv → List BodyItem → SEnv
+  | env, [] => env
+  | env, b :: rest => envBody (envItem env b) rest
+
+def bodyCount : List BodyItem → Nat
+  | [] => 0
+  | b :: rest => bodyItemCount b + bodyCount rest
+
+def bodyLabels : Nat → List BodyItem → List Sym
+  | _, [] => []
+  | k, b :: rest => bodyItemLabels k b ++ bodyLabels (k + bodyItemCount b) rest
+
 theorem bodyItems_exact {f : Name} : ∀ (items : List BodyItem) {st st' : PState} {us : List Sym},
     bodyItems f st items = .ok (st', us) →
-      st'.globals = bodyNews st.nextAnon items ++ updFunc st.globals f (addRefsO (bodyFnRefs items)) ∧
-      st'.nextAnon = st.nextAnon + bodyCount items ∧ us = bodyLabels st.nextAnon items := by
+      st'.globals = bodyNews f (prevStatic st.globals) st.nextAnon items ++ updFunc st.globals f (addRefsO (bodyFnRefs items)) ∧
+      st'.nextAnon = st.nextAnon + bodyCount items ∧ us = bodyLabels st.nextAnon items ∧
+      prevStatic st'.globals = envBody (prevStatic st.globals) items := by
   intro items
   induction items with
   | nil =>
     intro st st' us h
     simp only [bodyItems, pure, Except.pure, Except.ok.injEq, Prod.mk.injEq] at h
     rw [← h.1, ← h.2]
-    refine ⟨?_, rfl, rfl⟩
+    refine ⟨?_, rfl, rfl, rfl⟩
     simp only [bodyNews, bodyFnRefs, List.flatMap_nil, addRefsO_nil, List.nil_append]
     exact (updFirst_id _ _).symm
   | cons b rest ih =>
@@ -392,29 +503,40 @@ theorem bodyItems_exact {f : Name} : ∀ (items : List BodyItem) {st st' : PStat
       · rename_i p2 h2
         simp only [pure, Except.pure, Except.ok.injEq, Prod.mk.injEq] at h
         obtain ⟨g1, n1, l1⟩ := bodyItem_exact (st' := p1.1) (us := p1.2) (by simpa using h1)
-        obtain ⟨g2, n2, l2⟩ := ih (st := p1.1) (st' := p2.1) (us := p2.2) (by simpa using h2)
-        rw [← h.1, ← h.2, g2, n2, l2, g1, n1, l1]
-        refine ⟨?_, ?_, rfl⟩
-        · rw [updFunc_data_append (bodyItemNews_data _ _)]
+        obtain ⟨g2, n2, l2, e2⟩ := ih (st := p1.1) (st' := p2.1) (us := p2.2) (by simpa using h2)
+        have henv : prevStatic p1.1.globals = envItem (prevStatic st.globals) b := by
+          rw [g1]
+          have := prevStatic_bodyItemNews f (updFunc st.globals f (addRefsO (bodyFnRefs [b]))) st.nextAnon b
+          rw [prevStatic_updFunc (u := addRefsO (bodyFnRefs [b])) (fun _ => ⟨rfl, rfl⟩)] at this
+          exact this
+        rw [← h.1, ← h.2]
+        refine ⟨?_, ?_, ?_, ?_⟩
+        rotate_left
+        · rw [n2, n1]; simp only [bodyCount]; omega
+        · rw [l2, l1, n1]; rfl
+        · rw [e2, henv]; rfl
+        · rw [g2, henv, n1, g1]
+          rw [updFunc_data_append (bodyItemNews_data _ _ _ _)]
           simp only [updFunc]
           rw [updFirst_updFirst (u1 := addRefsO (bodyFnRefs [b])) (fun _ => rfl)]
           simp only [bodyNews, List.append_assoc]
           congr 3
           funext o
           simp [addRefsO, bodyFnRefs, List.append_assoc]
-        · simp only [bodyCount]; omega
 
-theorem bodyNews_data : ∀ (items : List BodyItem) (k : Nat) (o : Obj), o ∈ bodyNews k items → o.isFunction = false
-  | [], _, _, h => by simp [bodyNews] at h
-  | b :: rest, k, o, h => by
+theorem bodyNews_data (f : Name) : ∀ (items : List BodyItem) (env : SEnv) (k : Nat) (o : Obj),
+    o ∈ bodyNews f env k items → o.isFunction = false
+  | [], _, _, _, h => by simp [bodyNews] at h
+  | b :: rest, env, k, o, h => by
     simp only [bodyNews, List.mem_append] at h
     rcases h with h | h
-    · exact bodyNews_data rest _ o h
-    · exact bodyItemNews_data k b o h
+    · exact bodyNews_data f rest _ _ o h
+    · exact bodyItemNews_data f env k b o h
 
 /-! ### file-scope declarations -/
 
-/-- the object `global_variable` creates for `[static] [extern] [_Thread_local] T x [= init];` -/
+/-- the object `global_variable` creates for `[static] [extern] [_Thread_local] T x [= init];`
+    (`isStatic` = the value it stores in `var->is_static`) -/
 def varObj (k : Nat) (x : Name) (isStatic isExtern isTls : Bool) (ty : ObjTy) (init : Option (List InitItem)) : Obj :=
   match init with
   | none => { sym := .named x, isDefinition := !isExtern, isStatic := isStatic, isTls := isTls, ty := ty,
@@ -422,12 +544,22 @@ def varObj (k : Nat) (x : Name) (isStatic isExtern isTls : Bool) (ty : ObjTy) (i
   | some items => { sym := .named x, isDefinition := true, isStatic := isStatic, isTls := isTls, ty := ty,
                     hasInit := true, uses := initLabels k items }
 
-/-- the data objects one file-scope declaration pushes (newest first) when the label counter is `k` -/
-def declNews (k : Nat) : Decl → List Obj
+/-- `var->is_static` of a file-scope object declaration (repaired: an `extern` declaration inherits) -/
+def varStatic (env : SEnv) (x : Name) (s e : Bool) : Bool := s || (Rules.externInherits && e && env x)
+
+/-- the data objects one file-scope declaration pushes (newest first) when the label counter is `k` and the visible
+    declarations are `env` -/
+def declNews (k : Nat) (env : SEnv) : Decl → List Obj
   | .func _ _ _ _ _ none => []
-  | .func _ n _ _ _ (some b) => bodyNews (k + 2) b ++ [strObj (k + 1) (n + 1), strObj k (n + 1)]
-  | .obj x s e t ty none => [varObj k x s e t ty none]
-  | .obj x s e t ty (some items) => initNews k items ++ [varObj k x s e t ty (some items)]
+  | .func f n _ _ _ (some b) => bodyNews f env (k + 2) b ++ [strObj (some f) (k + 1) (n + 1), strObj (some f) k (n + 1)]
+  | .obj x s e t ty none => [varObj k x (varStatic env x s e) e t ty none]
+  | .obj x s e t ty (some items) => initNews none k items ++ [varObj k x (varStatic env x s e) e t ty (some items)]
+
+/-- what a file-scope declaration does to the environment -/
+def envDecl (env : SEnv) : Decl → SEnv
+  | .func _ _ _ _ _ none => env
+  | .func _ _ _ _ _ (some b) => envBody env b
+  | .obj x s e _ _ _ => envSet env x (varStatic env x s e)
 
 def declCount : Decl → Nat
   | .func _ _ _ _ _ none => 0
@@ -435,7 +567,7 @@ def declCount : Decl → Nat
   | .obj _ _ _ _ _ none => 0
   | .obj _ _ _ _ _ (some items) => initCount items
 
-theorem declNews_data (k : Nat) (d : Decl) : ∀ o, o ∈ declNews k d → o.isFunction = false := by
+theorem declNews_data (k : Nat) (env : SEnv) (d : Decl) : ∀ o, o ∈ declNews k env d → o.isFunction = false := by
   intro o ho
   cases d with
   | func f n s e i body =>
@@ -444,7 +576,7 @@ theorem declNews_data (k : Nat) (d : Decl) : ∀ o, o ∈ declNews k d → o.isF
     | some b =>
       simp only [declNews, List.mem_append, List.mem_cons, List.not_mem_nil, or_false] at ho
       rcases ho with ho | ho | ho
-      · exact bodyNews_data b _ o ho
+      · exact bodyNews_data f b _ _ o ho
       · subst ho; rfl
       · subst ho; rfl
   | obj x s e t ty init =>
@@ -494,13 +626,24 @@ theorem dataOf_fnEffect (cur : Option Name) (gs : List Obj) (l : List Name) : da
     | nil => rfl
     | cons g rest ih => simp only [List.foldl_cons]; rw [ih, dataOf_updFunc (u := setRootO) (fun _ => ⟨rfl, rfl⟩)]
 
-theorem keepsId_rootIf : KeepsId (fun o : Obj => if !(o.isStatic && o.isInline) then { o with isRoot := true } else o) := by
+theorem keepsId_rootIf : KeepsId rootIfO := by
   intro o
-  dsimp only
-  split <;> exact ⟨rfl, rfl⟩
+  unfold rootIfO
+  split
+  · exact ⟨rfl, rfl⟩
+  · split <;> exact ⟨rfl, rfl⟩
+
+theorem keepsId_redeclFlags (e i : Bool) : KeepsId (redeclFlags e i) := by
+  intro o
+  unfold redeclFlags
+  split
+  · dsimp only
+    split <;> split <;> exact ⟨rfl, rfl⟩
+  · exact ⟨rfl, rfl⟩
 
 theorem dataOf_declFunctionHead {st st' : PState} {f : Name} {s e i b : Bool}
-    (h : declFunctionHead st f s e i b = .ok st') : dataOf st'.globals = dataOf st.globals ∧ st'.nextAnon = st.nextAnon := by
+    (h : declFunctionHead st f s e i b = .ok st') :
+    dataOf st'.globals = dataOf st.globals ∧ st'.nextAnon = st.nextAnon ∧ prevStatic st'.globals = prevStatic st.globals := by
   unfold declFunctionHead at h
   split at h
   · split at h
@@ -509,53 +652,66 @@ theorem dataOf_declFunctionHead {st st' : PState} {f : Name} {s e i b : Bool}
       · cases h
       · cases h
         dsimp only
-        rw [dataOf_updFunc keepsId_rootIf, dataOf_updFunc (u := fun o => { o with isDefinition := o.isDefinition || b }) (fun _ => ⟨rfl, rfl⟩)]
-        exact ⟨rfl, rfl⟩
+        rw [dataOf_updFunc keepsId_rootIf, dataOf_updFunc (u := fun o => { o with isDefinition := o.isDefinition || b }) (fun _ => ⟨rfl, rfl⟩),
+          dataOf_updFunc (keepsId_redeclFlags _ _), prevStatic_updFunc keepsId_rootIf,
+          prevStatic_updFunc (u := fun o => { o with isDefinition := o.isDefinition || b }) (fun _ => ⟨rfl, rfl⟩),
+          prevStatic_updFunc (keepsId_redeclFlags _ _)]
+        exact ⟨rfl, rfl, rfl⟩
   · cases h
     dsimp only
-    rw [dataOf_updFunc keepsId_rootIf, dataOf_cons_fn rfl]
-    exact ⟨rfl, rfl⟩
+    rw [dataOf_updFunc keepsId_rootIf, dataOf_cons_fn rfl, prevStatic_updFunc keepsId_rootIf]
+    exact ⟨rfl, rfl, prevStatic_congr (fun x => findObj_cons_fn rfl _ x)⟩
 
 /-- **the data objects after one declaration**: the new ones in front of the old ones -/
 theorem dataOf_declStep {st st' : PState} {d : Decl} (h : declStep st d = .ok st') :
-    dataOf st'.globals = declNews st.nextAnon d ++ dataOf st.globals ∧ st'.nextAnon = st.nextAnon + declCount d := by
+    dataOf st'.globals = declNews st.nextAnon (prevStatic st.globals) d ++ dataOf st.globals ∧
+    st'.nextAnon = st.nextAnon + declCount d ∧ prevStatic st'.globals = envDecl (prevStatic st.globals) d := by
   cases d with
   | func f n s e i body =>
     simp only [declStep, declFunction] at h
     split at h
     · cases h
     · rename_i st1 h1
-      obtain ⟨d1, n1⟩ := dataOf_declFunctionHead h1
+      obtain ⟨d1, n1, e1⟩ := dataOf_declFunctionHead h1
       cases body with
       | none =>
         cases h
-        exact ⟨by simp [declNews, d1], by simp [declCount, n1]⟩
+        exact ⟨by simp [declNews, d1], by simp [declCount, n1], by simp [envDecl, e1]⟩
       | some items =>
         simp only at h
         split at h
         · cases h
         · rename_i st2 uses hp
           cases h
-          obtain ⟨g2, n2, _⟩ := bodyItems_exact items hp
+          obtain ⟨g2, n2, _, e2⟩ := bodyItems_exact items hp
           dsimp only
-          rw [dataOf_updFunc (u := fun o => { o with uses := uses }) (fun _ => ⟨rfl, rfl⟩), g2, n2]
-          simp only [newAnon] at *
-          rw [updFunc_cons_data rfl, updFunc_cons_data rfl, dataOf_append, dataOf_of_data (bodyNews_data _ _)]
-          refine ⟨?_, ?_⟩
-          · simp only [dataOf, List.filter_cons]
+          have hanon2 : prevStatic (newAnon (some f) (newAnon (some f) st1 (strTy (n + 1)) true).1 (strTy (n + 1)) true).1.globals =
+              prevStatic st1.globals := by
+            simp only [newAnon]
+            exact prevStatic_congr (fun x => by rw [findObj_cons_anon rfl, findObj_cons_anon rfl])
+          refine ⟨?_, ?_, ?_⟩
+          · rw [dataOf_updFunc (u := fun o => { o with uses := uses }) (fun _ => ⟨rfl, rfl⟩), g2, hanon2, e1]
+            simp only [newAnon] at *
+            rw [updFunc_cons_data rfl, updFunc_cons_data rfl, dataOf_append, dataOf_of_data (bodyNews_data _ _ _ _)]
+            simp only [dataOf, List.filter_cons]
             simp only [Bool.not_false, if_true]
             have := dataOf_updFunc (u := addRefsO (bodyFnRefs items)) (fun _ => ⟨rfl, rfl⟩) st1.globals f
             simp only [dataOf] at this d1
             rw [this, d1, n1]
             simp [declNews, strObj]
-          · rw [n1]; simp only [declCount]; omega
+          · rw [n2]; simp only [newAnon, declCount]; rw [n1]; omega
+          · rw [prevStatic_updFunc (u := fun o => { o with uses := uses }) (fun _ => ⟨rfl, rfl⟩), e2, hanon2, e1]
+            rfl
   | obj x s e t ty init =>
     simp only [declStep, declObject] at h
     cases init with
     | none =>
       simp only [pure, Except.pure, Except.ok.injEq] at h
       rw [← h]
-      exact ⟨by simp [dataOf, declNews, varObj], by simp [declCount]⟩
+      refine ⟨by simp [dataOf, declNews, varObj, varStatic], by simp [declCount], ?_⟩
+      dsimp only
+      rw [prevStatic_cons_named rfl rfl]
+      rfl
     | some items =>
       simp only [bind, Except.bind] at h
       split at h
@@ -570,21 +726,23 @@ theorem dataOf_declStep {st st' : PState} {d : Decl} (h : declStep st d = .ok st
           obtain ⟨_, j, m, _, rfl⟩ := initNews_spec items _ o ho
           simp [strObj])]
         rw [updFirst_hit _ (by simp)]
-        refine ⟨?_, by rw [n1]; simp [declCount]⟩
-        rw [dataOf_append, dataOf_of_data (fun o ho => (initNews_spec items _ o ho).1)]
-        simp only [dataOf, List.filter_cons, Bool.not_false, if_true]
-        have := dataOf_fnEffect none st.globals (initFnRefs items)
-        simp only [dataOf] at this
-        rw [this, l1]
-        simp [declNews, varObj]
+        refine ⟨?_, by rw [n1]; simp [declCount], ?_⟩
+        · rw [dataOf_append, dataOf_of_data (fun o ho => (initNews_spec items _ o ho).1)]
+          simp only [dataOf, List.filter_cons, Bool.not_false, if_true]
+          have := dataOf_fnEffect none st.globals (initFnRefs items)
+          simp only [dataOf] at this
+          rw [this, l1]
+          simp [declNews, varObj, varStatic]
+        · rw [prevStatic_append_anon (initNews_anon items _), prevStatic_cons_named rfl rfl, prevStatic_fnEffect]
+          rfl
 
-/-- all data objects `ds` pushes, newest first, when the label counter starts at `k` -/
-def allNews : Nat → List Decl → List Obj
-  | _, [] => []
-  | k, d :: ds => allNews (k + declCount d) ds ++ declNews k d
+/-- all data objects `ds` pushes, newest first, when the label counter starts at `k` and the visible declarations are `env` -/
+def allNews : Nat → SEnv → List Decl → List Obj
+  | _, _, [] => []
+  | k, env, d :: ds => allNews (k + declCount d) (envDecl env d) ds ++ declNews k env d
 
 theorem dataOf_declAll : ∀ (ds : List Decl) {st st' : PState}, declAll st ds = .ok st' →
-    dataOf st'.globals = allNews st.nextAnon ds ++ dataOf st.globals := by
+    dataOf st'.globals = allNews st.nextAnon (prevStatic st.globals) ds ++ dataOf st.globals := by
   intro ds
   induction ds with
   | nil =>
@@ -597,13 +755,17 @@ theorem dataOf_declAll : ∀ (ds : List Decl) {st st' : PState}, declAll st ds =
     split at h
     · cases h
     · rename_i st1 h1
-      obtain ⟨d1, n1⟩ := dataOf_declStep h1
-      rw [ih h, d1, n1]
+      obtain ⟨d1, n1, e1⟩ := dataOf_declStep h1
+      rw [ih h, d1, n1, e1]
       simp [allNews, List.append_assoc]
 
+/-- nothing is visible when `parse` starts -/
+def env0 : SEnv := fun _ => false
+
 /-- the data objects `parse` has created when it reaches the root loop -/
-theorem dataOf_parse {ds : List Decl} {st : PState} (h : declAll {} ds = .ok st) : dataOf st.globals = allNews 0 ds := by
+theorem dataOf_parse {ds : List Decl} {st : PState} (h : declAll {} ds = .ok st) : dataOf st.globals = allNews 0 env0 ds := by
   have := dataOf_declAll ds h
-  simpa [dataOf] using this
+  have h0 : prevStatic ([] : List Obj) = env0 := rfl
+  simpa [dataOf, h0] using this
 
 end ChibiVerif.Linkage
